@@ -214,7 +214,6 @@ mod verif_c18_cid_binding {
 
         assert!(p.role() == Role::Client, "C18.cid.client.sup.role");
         assert!(!p.is_remote_params_ready() && !p.is_remote_params_received(), "C18.cid.client.initially_not_ready");
-        assert!(!poll_is_ready(&mut p), "C18.cid.client.initially_poll_pending");
         assert!(p.remembered().is_some() == with_remembered, "C18.cid.client.sup.remembered_kept_until_ready");
 
         let last = if params_first {
@@ -270,7 +269,6 @@ mod verif_c18_cid_binding {
 
         assert!(p.role() == Role::Server, "C18.cid.server.sup.role");
         assert!(!p.is_remote_params_ready() && !p.is_remote_params_received(), "C18.cid.server.initially_not_ready");
-        assert!(!poll_is_ready(&mut p), "C18.cid.server.initially_poll_pending");
 
         let last = if params_first {
             let r = p.recv_remote_params(received_set::<Client>());
@@ -364,6 +362,29 @@ mod verif_c18_cid_binding {
     #[kani::stub(crate::param::core::Parameters::contains, oracle_contains)]
     fn server_packet_then_params() {
         server_binding_contract(false);
+    }
+
+    /// `poll_ready` (what `ArcParameters::remote_ready().await` and thereby every user of the peer's limits waits
+    /// on) is Ready exactly when the binding succeeded (`is_remote_params_ready`), for every reachable `state`;
+    /// while pending it registers the caller's waker and wakes nobody.
+    #[kani::proof]
+    #[kani::unwind(4)]
+    #[kani::stub(std::hash::RandomState::new, fixed_random_state)]
+    fn poll_ready_contract() {
+        let mut p = if kani::any() { client_start(any_cid(), false) } else { server_start() };
+        let both = Parameters::CLIENT_READY | Parameters::SERVER_READY;
+        if kani::any() {
+            p.state = both; // the only other value ever stored (recv_remote_params / initial_scid_from_peer_need_equal)
+        }
+        let state0 = p.state;
+        let ready = poll_is_ready(&mut p);
+        assert!(ready == (state0 == both), "C18.cid.poll_ready.ready_iff_both_sides_bound");
+        assert!(ready == p.is_remote_params_ready(), "C18.cid.poll_ready.agrees_with_is_remote_params_ready");
+        assert!(p.state == state0, "C18.cid.poll_ready.state_unchanged");
+        assert!(p.wakers.len() == if ready { 0 } else { 1 }, "C18.cid.poll_ready.pending_registers_one_waker");
+        kani::cover!(ready, "C18.cid.poll_ready.reach_ready");
+        kani::cover!(!ready && p.role() == Role::Server, "C18.cid.poll_ready.reach_pending_server");
+        std::mem::forget(p);
     }
 
     /// RFC 9000 §7.3: "retry_source_connection_id ... the client MUST verify it equals the Source Connection ID
